@@ -312,8 +312,12 @@ impl Engine for C06 {
                         // history: other transforms on this thread first (results ignored)
                         if interfere & 1 != 0 {
                             let _ = fe_stream_plain(&doc, &perturbed(&cfg));
-                            for p in single_field_perturbations(&cfg) {
-                                let _ = fe_stream_plain(&doc, &p);
+                            for (i, p) in single_field_perturbations(&cfg).iter().enumerate() {
+                                if i % 2 == 0 {
+                                    let _ = fe_stream_plain(&doc, p);
+                                } else {
+                                    let _ = fe_str(&doc, p);
+                                }
                             }
                         }
                         if interfere & 2 != 0 {
@@ -323,7 +327,17 @@ impl Engine for C06 {
                             }
                         }
                         if interfere & 4 != 0 {
-                            let _ = fe_stream_plain(b"<svg><rect xy=\"#nope|h\" wh=\"1\"/><g fill=\"red\"><rect xy=\"#nope2|h\"/></g></svg>", &cfg);
+                            // failing transforms, early and late (after output has begun),
+                            // through both library entry points
+                            for bad in [
+                                "<svg><rect xy=\"#nope|h\" wh=\"1\"/><g fill=\"red\"><rect xy=\"#nope2|h\"/></g></svg>",
+                                "<!-- stale --><svg width=\"wide\"><rect wh=\"5\" text=\"stale\"/></svg>",
+                                "<svg height=\"1-2cm\"><rect wh=\"5\" class=\"d-red\"/></svg>",
+                                "<svg><rect wh=\"{{(1}}\"/></svg>",
+                            ] {
+                                let _ = fe_str(bad.as_bytes(), &cfg);
+                                let _ = fe_stream_plain(bad.as_bytes(), &cfg);
+                            }
                         }
                         let mut v = Vec::new();
                         for r in 0..reps {
